@@ -95,3 +95,28 @@ Theorem format_cap_is_real :
   render_spec o f (al_cs al) (al_off al) (al_abbr al) 0 0 (spec_tm (al_cs al) (al_dst al)) = repeat 120 40.
 Proof. vm_compute. repeat split. Qed.
 Print Assumptions format_cap_is_real.
+
+From CCTZ Require Import SourceFixed SourceFmtOut SourceFmtOutProofs.
+(* SOURCE-DERIVED output helpers of format() (SourceFmtOut.v, regenerated from clang's AST of time_zone_format.cc on
+   every run): Format64 / Format02d / FormatOffset write BACKWARDS into the scratch buffer (`*--ep = ...`); the array is
+   a list of optional bytes with bounds- and initialisation-checked accesses.  Whenever the hand-written model renders bs
+   and bs fits below ep, the source-derived function writes exactly bs ending at ep and returns ep - |bs| - no
+   out-of-bounds write, no signed overflow (the width hypothesis of Format64 excludes --width on INT_MIN, unreachable
+   from format(), whose widths are 0, 4, 15 and 1..18). *)
+Theorem src_format64_tie : forall fuel arr ep width v bs,
+  (25 <= fuel)%nat -> min32 + 24 <= width <= max32 ->
+  format64 width v = OK bs -> Z.of_nat (length bs) <= ep <= alen arr ->
+  sg_Format64 fuel arr ep width v = OK (ep - Z.of_nat (length bs), aw arr ep bs).
+Proof. exact sg_Format64_tie. Qed.
+Print Assumptions src_format64_tie.
+Theorem src_format02d_tie : forall arr ep v, 2 <= ep <= alen arr ->
+  sg_Format02d arr ep v = do ds <- format02d v ;; OK (ep - Z.of_nat (length ds), aw arr ep ds).
+Proof. exact sg_Format02d_tie. Qed.
+Print Assumptions src_format02d_tie.
+Theorem src_format_offset_tie : forall buf arr ep offset mode bs,
+  0 <= mode <= blen buf ->
+  format_offset offset (skipn (Z.to_nat mode) buf) = OK bs ->
+  Z.of_nat (length bs) <= ep <= alen arr ->
+  sg_FormatOffset buf arr ep offset mode = OK (ep - Z.of_nat (length bs), aw arr ep bs).
+Proof. exact sg_FormatOffset_tie. Qed.
+Print Assumptions src_format_offset_tie.
